@@ -570,7 +570,7 @@ Proof.
   - inversion Hs; subst; clear Hs. rewrite nodes_chan_set. eauto.
   - destruct (aget a (nodes g)) as [y|] eqn:E; [|discriminate]. inversion Hs; subst; clear Hs.
     rewrite nodes_finish.
-    assert (Hg : forall fr, nodes (if fr then chan_set a b [] (chan_set b a [] g) else g) = nodes g)
+    assert (Hg : forall fr : bool, nodes (if fr then chan_set a b [] (chan_set b a [] g) else g) = nodes g)
       by (intros []; reflexivity).
     rewrite Hg, aget_aset. destruct (x =? a) eqn:Ex.
     + apply N.eqb_eq in Ex. subst x. rewrite E in Hn. inversion Hn; subst y.
@@ -601,5 +601,5 @@ Proof.
     rewrite aget_adel_ne by exact Hne.
     destruct (aget n0 (nodes g)) as [y|]; [destruct (disk_of c y)|]; cbn; eauto.
   - inversion Hs; subst; clear Hs. unfold put_node. cbn.
-    rewrite aget_aset, Hr. eauto.
+    rewrite aget_aset, N.eqb_sym, Hr. eauto.
 Qed.
